@@ -30,7 +30,7 @@ def random_header(rng, family):
     if family == "prq":
         return f"new prq {rng.choice([1, 1, 2, 3, 5])}"
     if family == "fleet":
-        return f"new fleet {rng.choice([1, 2, 2, 3, 3, 4, 6])} {rng.choice([1, 2, 4, 4, 8, 16])} {rng.choice([0, 0, 1, 2, 3, 8])}"
+        return f"new fleet {rng.choice([1, 2, 2, 3, 3, 4, 6])} {rng.choice([1, 2, 4, 4, 8, 16, 16, 0] if rng.random() < 0.15 else [1, 2, 4, 4, 8, 16])} {rng.choice([0, 0, 1, 2, 3, 8])}"
     raise ValueError(family)
 
 def gen_prq_history(rng, header, nops, stats=None):
